@@ -118,7 +118,11 @@ def run(rep, tier):
                        expected="excluded by a verifier condition", found=[T.show(c) for c in p["conds"]], sample=True)
         # control transfers: per accepting path of the verifier and per interpreter path compatible with
         # it, the next pc (specialised by the path's `field == K` atoms) is validated on that very path
-        d = isa.TABLE[v]
+        d = isa.TABLE.get(v)
+        if d is None:
+            rep.ob(rb, "opc=%#04x/not-an-instruction" % v, False, "the verifier accepts byte %#04x, which is not an eBPF opcode" % v,
+                   expected="refused", found="accepted; the interpreter has no arm for it")
+            continue
         from props.c03 import eq_substitution
         results = {}
         for atoms, _ in r["accept"]:
